@@ -18,8 +18,10 @@ VARIABLES l,      \* next trace line
           pol,    \* its policy table (checker: given; select: derived from the allow set)
           allow,
           fail,   \* >= 0: the backend's repository listing fails after that many items
-          tree    \* kind "tree": the wrappers, each [kind, parent (0 = backend), pol, allow]
-tvars == <<kind, pol, allow, fail, tree>>
+          tree,   \* kind "tree": the wrappers, each [kind, parent (0 = backend), pol, allow]
+          faults, \* <<method, code>> pairs: the backend answers that method with that error
+          script  \* [on |-> BOOLEAN, items |-> what the backend's repository listing delivers if on]
+tvars == <<kind, pol, allow, fail, tree, faults, script>>
 
 Trace == ndJsonDeserialize(IOEnv.TRACE_FILE)
 ToSet(s) == {s[i] : i \in 1..Len(s)}
@@ -110,7 +112,7 @@ StartPosOK(e) ==
                ELSE 2 * Cardinality({y \in ViewRepos : Less(Chars[y], Chars[e.start])}) + 1
 
 \* ------------------------------------------------------------------------
-TInit == Init /\ l = 2 /\ kind = "-" /\ pol = <<>> /\ allow = {} /\ fail = -1 /\ tree = <<>>
+TInit == Init /\ l = 2 /\ kind = "-" /\ pol = <<>> /\ allow = {} /\ fail = -1 /\ tree = <<>> /\ faults = {} /\ script = [on |-> FALSE, items |-> <<>>]
         /\ wres = NoRes /\ wpe = None /\ cons = <<>> /\ bcalls = <<>> /\ bscopes = <<>>
 
 ResetStep(e) ==
@@ -125,6 +127,8 @@ ResetStep(e) ==
   /\ kind' = e.kind
   /\ fail' = e.failafter
   /\ tree' = e.tree
+  /\ faults' = {<<x[1], x[2]>> : x \in ToSet(e.faults)}
+  /\ script' = [on |-> e.scripted, items |-> e.script]
   \* a stack of Sub views is the one view under the composed prefix
   /\ e.kind = "sub" => ChainPrefix(e.chain) = Prefix
   /\ allow' = ToSet(e.allow)
@@ -136,11 +140,17 @@ BackendStep(e) ==
   /\ UNCHANGED <<wvars, tvars>>
 
 \* C12: a call through AccessChecker / Select
-Failing(e) == fail >= 0 /\ e.op = "ListRepos" /\ ~Rejected(e, pol)
+Faulted(op) == \E x \in faults : x[1] = op
+FaultCode(op) == (CHOOSE x \in faults : x[1] = op)[2]
+\* a listing over a backend whose listing is scripted and / or fails part way
+Failing(e) == (fail >= 0 \/ script.on) /\ e.op = "ListRepos" /\ ~Rejected(e, pol)
 CheckedStep(e) ==
   LET sc == ScopeOf(e.scope) IN
-  /\ IF Failing(e) THEN CheckedListFail(e, pol, sc, fail) /\ e.items = wres'.items
-                   ELSE CheckedApply(e, pol, sc)
+  \* (a name outside the backend's universe is an ill-formed one)
+  /\ \A n \in CNames(e) \ Repos : ~ValidName(n)
+  /\ IF Failing(e) THEN CheckedListing(e, pol, sc, script.on, script.items, fail) /\ e.items = wres'.items
+     ELSE IF Faulted(e.op) /\ ~Rejected(e, pol) THEN CheckedFault(e, pol, sc, FaultCode(e.op)) /\ FaultedStep(FaultCode(e.op))
+     ELSE CheckedApply(e, pol, sc)
   /\ Match(wres', e)
   \* a name that comes with an error (consumers may look at it) is nothing the policy rejects
   /\ e.op = "ListRepos" => \A i \in 1..Len(e.errwith) : ErrItemOK(e.errwith[i], pol)
@@ -158,7 +168,8 @@ CheckedStep(e) ==
   /\ \A i \in 1..Len(e.bscopes) : ScopeOf(e.bscopes[i]) = sc
   \* the error is the policy's own (its identity, not just its code); no policy error otherwise
   /\ kind = "checker" => ToSet(e.pes) = (IF wpe' = None THEN {} ELSE {wpe'})
-  /\ IF Failing(e) THEN /\ RejectedNeverReachesBackendStep(e, pol) /\ ListingFilteredStep(e, pol)
+  /\ IF Failing(e) \/ (Faulted(e.op) /\ ~Rejected(e, pol))
+                   THEN /\ RejectedNeverReachesBackendStep(e, pol) /\ ListingFilteredStep(e, pol)
                          /\ ErrorIsPolicyErrorStep(e, pol) /\ BackendUnchanged
                    ELSE C12Step(e, pol)
   /\ kind = "select" => SelectKindsOK(allow, Repos)
@@ -204,9 +215,12 @@ InvalidCallOK(e) ==
   /\ Len(e.backend) <= (IF e.op \in LazyOps THEN Iters(e) ELSE 1)
   /\ \A i \in 1..Len(e.backend) : e.backend[i].m = e.op
 SubFailing(e) == fail >= 0 /\ e.op = "ListRepos"
+SubFaulted(e) == Faulted(e.op) /\ (\A n \in OpNames(e) : ValidName(n))
 SubStep(e) ==
   LET sc == ScopeOf(e.scope) IN
-  /\ IF SubFailing(e) THEN SubListFail(e, sc, fail) /\ e.items = wres'.items ELSE SubApply(e, sc)
+  /\ IF SubFailing(e) THEN SubListFail(e, sc, fail) /\ e.items = wres'.items
+     ELSE IF SubFaulted(e) THEN SubFault(e, sc, FaultCode(e.op)) /\ FaultedStep(FaultCode(e.op))
+     ELSE SubApply(e, sc)
   /\ Match(wres', e)
   /\ e.cons = <<>>
   /\ e.op = "ListRepos" => StartPosOK(e)
@@ -217,7 +231,9 @@ SubStep(e) ==
   /\ ConfinedCalls(e.backend)
   /\ \A i \in 1..Len(e.bscopes) : ScopesRewrittenOne(sc, ScopeOf(e.bscopes[i]))
   /\ Len(e.bscopes) = NIface(e.backend)
-  /\ IF SubFailing(e) THEN SubFailedListingStep(e) /\ ScopesRewrittenStep(sc) ELSE C13Step(e, sc)
+  /\ IF SubFailing(e) THEN SubFailedListingStep(e) /\ ScopesRewrittenStep(sc)
+     ELSE IF SubFaulted(e) THEN ScopesRewrittenStep(sc) /\ ConfinedCalls(bcalls') /\ OutsideUnchanged
+     ELSE C13Step(e, sc)
   /\ e.op = "ListRepos" => \A i \in 1..Len(e.errwith) : e.errwith[i] = "" \/ e.errwith[i] \in ViewRepos
   /\ UNCHANGED tvars
 
